@@ -66,3 +66,178 @@ package tex
 //@   property C19 C20
 //@   ensures result == time.Duration(i)
 //@   modifies
+//
+// ==================== C11: tex.Buffer against the documented behaviour of bytes.Buffer ====================
+//@ assumption tex.Buffer: slices passed to Write/Read/ReWrite do not alias the buffer's own backing array
+//
+// Abstract view: the unread bytes at(b,0) .. at(b,blen(b)-1); lastRead as in bytes.Buffer.
+//@ pure bvalid(b *Buffer) bool = 0 <= b.off && b.off <= len(b.buf)
+//@ pure blen(b *Buffer) int = len(b.buf) - b.off
+//@ pure at(b *Buffer, i int) uint8 = b.buf[b.off+i]
+//
+//@ func Buffer.Len
+//@   property C11
+//@   requires bvalid(b)
+//@   ensures result == blen(b)
+//@   modifies
+//@ func Buffer.empty
+//@   property C11
+//@   requires bvalid(b)
+//@   ensures result <==> blen(b) <= 0
+//@   modifies
+//@ func Buffer.Cap
+//@   property C11
+//@   ensures result == cap(b.buf)
+//@   modifies
+//@ func Buffer.Bytes
+//@   property C11
+//@   requires bvalid(b)
+//@   ensures len(result) == blen(b) && forall i int :: { result[i] } 0 <= i && i < len(result) ==> result[i] == at(b, i)
+//@   modifies
+//
+//@ func Buffer.Reset
+//@   property C11
+//@   ensures blen(b) == 0 && b.off == 0 && len(b.buf) == 0 && b.lastRead == 0 && cap(b.buf) == old(cap(b.buf)) && arrid(b.buf) == old(arrid(b.buf)) && off(b.buf) == old(off(b.buf))
+//@   modifies b.buf, b.off, b.lastRead
+//
+//@ func Buffer.Truncate
+//@   property C11
+//@   requires bvalid(b)
+//@   maypanic
+//@   ensures #inrange 0 <= n && n <= old(blen(b))
+//@   ensures #kept blen(b) == n && b.lastRead == 0 && bvalid(b) && forall i int :: { at(b, i) } 0 <= i && i < n ==> at(b, i) == old(at(b, i))
+//@   ensures_panic n < 0 || n > old(blen(b))
+//@   modifies b.buf, b.off, b.lastRead
+//
+//@ func Buffer.tryGrowByReslice
+//@   property C11
+//@   requires bvalid(b) && n >= 0
+//@   ensures #ok result1 <==> n <= old(cap(b.buf)) - old(len(b.buf))
+//@   ensures #resliced result1 ==> result0 == old(len(b.buf)) && len(b.buf) == old(len(b.buf)) + n && arrid(b.buf) == old(arrid(b.buf)) && off(b.buf) == old(off(b.buf)) && cap(b.buf) == old(cap(b.buf))
+//@   ensures #unchanged !result1 ==> b.buf == old(b.buf)
+//@   modifies b.buf
+//
+//@ func makeSlice
+//@   property C11
+//@   requires n >= 0
+//@   maypanic
+//@   ensures len(result) == n && isfresh(result) && forall i int :: { result[i] } 0 <= i && i < n ==> result[i] == 0
+//@   modifies region($alloc)
+//
+//@ func Buffer.grow
+//@   property C11
+//@   requires bvalid(b) && n >= 0
+//@   maypanic
+//@   ensures #index result == len(b.buf) - n && result - b.off == old(blen(b)) && bvalid(b) && result >= b.off
+//@   ensures #storage (arrid(b.buf) == old(arrid(b.buf)) && off(b.buf) == old(off(b.buf)) && cap(b.buf) == old(cap(b.buf))) || isfresh(b.buf)
+//@   ensures #lastread b.lastRead == old(b.lastRead) || b.lastRead == 0
+//@   ensures #view forall i int :: { at(b, i) } 0 <= i && i < old(blen(b)) ==> at(b, i) == old(at(b, i))
+//@   modifies b.buf, b.off, b.lastRead, region($alloc), b.buf[0:cap(b.buf)]
+//
+//@ func Buffer.Grow
+//@   property C11
+//@   requires bvalid(b)
+//@   maypanic
+//@   ensures #nonneg n >= 0
+//@   ensures #view blen(b) == old(blen(b)) && bvalid(b) && cap(b.buf) - len(b.buf) >= n && forall i int :: { at(b, i) } 0 <= i && i < blen(b) ==> at(b, i) == old(at(b, i))
+//@   ensures_panic true
+//@   modifies b.buf, b.off, b.lastRead, region($alloc), b.buf[0:cap(b.buf)]
+//
+//@ func Buffer.Write
+//@   property C11
+//@   requires bvalid(b) && arrid(p) != arrid(b.buf)
+//@   maypanic
+//@   ensures #result n == len(p) && err == nil && b.lastRead == 0 && bvalid(b)
+//@   ensures #length blen(b) == old(blen(b)) + len(p)
+//@   ensures #kept forall i int :: { at(b, i) } 0 <= i && i < old(blen(b)) ==> at(b, i) == old(at(b, i))
+//@   ensures #appended forall j int :: { p[j] } 0 <= j && j < len(p) ==> at(b, old(blen(b)) + j) == p[j]
+//@   modifies b.buf, b.off, b.lastRead, region($alloc), b.buf[0:cap(b.buf)]
+//
+//@ func Buffer.WriteString
+//@   property C11
+//@   requires bvalid(b)
+//@   maypanic
+//@   ensures #result n == len(s) && err == nil && b.lastRead == 0 && bvalid(b)
+//@   ensures #length blen(b) == old(blen(b)) + len(s)
+//@   ensures #kept forall i int :: { at(b, i) } 0 <= i && i < old(blen(b)) ==> at(b, i) == old(at(b, i))
+//@   ensures #appended forall j int :: { s[j] } 0 <= j && j < len(s) ==> at(b, old(blen(b)) + j) == s[j]
+//@   modifies b.buf, b.off, b.lastRead, region($alloc), b.buf[0:cap(b.buf)]
+//
+//@ func Buffer.WriteByte
+//@   property C11
+//@   requires bvalid(b)
+//@   maypanic
+//@   ensures #result result == nil && b.lastRead == 0 && bvalid(b) && blen(b) == old(blen(b)) + 1 && at(b, old(blen(b))) == c
+//@   ensures #kept forall i int :: { at(b, i) } 0 <= i && i < old(blen(b)) ==> at(b, i) == old(at(b, i))
+//@   modifies b.buf, b.off, b.lastRead, region($alloc), b.buf[0:cap(b.buf)]
+//
+//@ func Buffer.WriteRune
+//@   property C11
+//@   requires bvalid(b)
+//@   maypanic
+//@   ensures #result n == utf8len(r) && err == nil && b.lastRead == 0 && bvalid(b) && blen(b) == old(blen(b)) + utf8len(r)
+//@   ensures #kept forall i int :: { at(b, i) } 0 <= i && i < old(blen(b)) ==> at(b, i) == old(at(b, i))
+//@   ensures #encoded forall k int :: { utf8byte(r, k) } 0 <= k && k < utf8len(r) ==> at(b, old(blen(b)) + k) == utf8byte(r, k)
+//@   modifies b.buf, b.off, b.lastRead, region($alloc), b.buf[0:cap(b.buf)]
+//
+//@ func Buffer.ReWrite
+//@   property C11
+//@   requires bvalid(b) && 0 <= pos && pos <= len(b.buf) && arrid(p) != arrid(b.buf)
+//@   ensures #same len(b.buf) == old(len(b.buf)) && b.off == old(b.off)
+//@   ensures #written forall j int :: { p[j] } 0 <= j && j < len(p) && pos + j < len(b.buf) ==> b.buf[pos+j] == p[j]
+//@   ensures #others forall q int :: { b.buf[q] } 0 <= q && q < len(b.buf) && !(pos <= q && q < pos + len(p)) ==> b.buf[q] == old(b.buf[q])
+//@   modifies b.buf[0:len(b.buf)]
+//
+//@ func Buffer.Read
+//@   property C11
+//@   requires bvalid(b) && arrid(p) != arrid(b.buf) && io.EOF != nil
+//@   ensures #count n == min(len(p), old(blen(b))) && bvalid(b)
+//@   ensures #eof err != nil <==> (old(blen(b)) == 0 && len(p) > 0)
+//@   ensures #data forall j int :: { p[j] } 0 <= j && j < n ==> p[j] == old(at(b, j))
+//@   ensures #rest old(blen(b)) > 0 ==> blen(b) == old(blen(b)) - n && forall i int :: { at(b, i) } 0 <= i && i < blen(b) ==> at(b, i) == old(at(b, n + i))
+//@   ensures #drained old(blen(b)) == 0 ==> blen(b) == 0
+//@   ensures #lastread b.lastRead == ite(n > 0, readOp(-1), readOp(0))
+//@   modifies b.buf, b.off, b.lastRead, p[0:len(p)]
+//
+//@ func Buffer.Next
+//@   property C11
+//@   requires bvalid(b) && n >= 0
+//@   ensures #count len(result) == min(n, old(blen(b))) && bvalid(b) && blen(b) == old(blen(b)) - len(result)
+//@   ensures #data forall j int :: { result[j] } 0 <= j && j < len(result) ==> result[j] == old(at(b, j))
+//@   ensures #lastread b.lastRead == ite(len(result) > 0, readOp(-1), readOp(0))
+//@   modifies b.off, b.lastRead
+//
+//@ func Buffer.ReadByte
+//@   property C11
+//@   requires bvalid(b) && io.EOF != nil
+//@   ensures #eof result1 != nil <==> old(blen(b)) == 0
+//@   ensures #data result1 == nil ==> result0 == old(at(b, 0)) && blen(b) == old(blen(b)) - 1 && b.lastRead == -1 && bvalid(b)
+//@   ensures #empty result1 != nil ==> result0 == 0 && blen(b) == 0
+//@   modifies b.buf, b.off, b.lastRead
+//
+//@ func Buffer.UnreadByte
+//@   property C11
+//@   requires bvalid(b) && errUnreadByte != nil
+//@   ensures #err result != nil <==> old(b.lastRead) == 0
+//@   ensures #back result == nil ==> b.lastRead == 0 && b.off == ite(old(b.off) > 0, old(b.off) - 1, old(b.off)) && len(b.buf) == old(len(b.buf))
+//@   ensures #same result != nil ==> b.off == old(b.off) && b.lastRead == old(b.lastRead)
+//@   modifies b.off, b.lastRead
+//
+//@ func Buffer.UnreadRune
+//@   property C11
+//@   requires bvalid(b)
+//@   ensures #err result != nil <==> old(b.lastRead) <= 0
+//@   ensures #back result == nil ==> b.lastRead == 0 && b.off == ite(old(b.off) >= int(old(b.lastRead)), old(b.off) - int(old(b.lastRead)), old(b.off))
+//@   ensures #same result != nil ==> b.off == old(b.off) && b.lastRead == old(b.lastRead)
+//@   modifies b.off, b.lastRead
+//
+//@ func NewSizedBuffer
+//@   property C11
+//@   requires size >= 0
+//@   ensures result != nil && isfresh(result) && blen(result) == 0 && result.off == 0 && cap(result.buf) >= size && result.lastRead == 0
+//@   modifies region($alloc)
+//
+//@ func NewBuffer
+//@   property C11
+//@   ensures result != nil && isfresh(result) && result.buf == buf && result.off == 0 && result.lastRead == 0
+//@   modifies region($alloc)
